@@ -338,6 +338,25 @@ def t_big(container, tier):
 					else:
 						sh.nontrivial += 1
 						sh.count('big_bulk_calls')
+		# queries that are themselves a selection from the reference object (index list, stepped slice): what the references gather while the
+		# matrix is computed must not disturb them
+		if container != 'siglist' or True:
+			for qkind, qix in (('index-list', [17, 3, 900, 17]), ('stepped-slice', slice(10, 400, 97)), ('mask', np.arange(n) % 499 == 1)):
+				qsel = refs[qix]
+				qpos = list(range(n))[qix] if isinstance(qix, slice) else ([int(x) for x in np.flatnonzero(qix)] if isinstance(qix, np.ndarray) else qix)
+				qs = [qsel[i] for i in range(len(qsel))]
+				for sel in ([5, 6, 7], [900, 17, 3, 3, 1200, 1], list(range(0, 40))):
+					for chunk in (None, 2):
+						omp_set_num_threads(2)
+						res = jaccarddist_matrix(qs, refs, ref_indices=sel, chunksize=chunk).view(np.uint32)
+						exp = np.array([[f32bits(jaccarddist(arrs[a], arrs[b])) for b in sel] for a in qpos], dtype=np.uint32)
+						sh.evals += 1
+						if res.shape != exp.shape or not np.array_equal(res, exp):
+							sh.violation('big-matrix-cell-mismatch', dict(big=True, container=container, func='matrix', threads=2, chunk=chunk, selection=f'queries={qkind} of the references, refs={sel[:6]}'), None,
+							             dict(first_bad_cell=np.argwhere(res != exp)[0].tolist() if res.shape == exp.shape else None))
+						else:
+							sh.nontrivial += 1
+							sh.count('queries_selected_from_the_reference_object')
 		omp_set_num_threads(4)
 		m = 300
 		idx = list(range(0, m * 2, 2))
